@@ -163,9 +163,10 @@ CHECKS["C09"] = dict(
     level="exploration",
     rule=_CFG_GEN + "For every (endpoint, key material of the universe) pair the tester connects / sends a datagram encoded with that key and reads the executor's metric events for its own client port: "
          "authenticated iff the material belongs to the owning service (legacy: that port), attributed to the first id with that material in the service (legacy: any such id on the port); UDP attribution uses the "
-         "local allowed address 192.0.2.2 when present. Non-trivial = >=2 services/legacy ports, or a duplicated material inside a service. Distinct = canonical case JSON.",
+         "local allowed address 192.0.2.2 when present. (Respelled) two owners naming one socket in different spellings (0.0.0.0/[::], 127.0.0.1/[::ffff:127.0.0.1], [::1]/[0:0:0:0:0:0:0:1], legacy port/wildcard service): "
+         "refused, or if loaded the socket serves the keys of one owner only, every time (6 probes per key). Non-trivial = >=2 services/legacy ports, or a duplicated material inside a service. Distinct = canonical case JSON.",
     assumptions=["destination policy keeps probes from relaying: authentication is observed through the metric events", "a configuration that fails on a port another process took is discarded, never reported"],
-    units=[unit("props", ["Config"], "C09", needs=["inpkg-main"])],
+    units=[unit("props", ["Config", "Respelled"], "C09", needs=["inpkg-main"])],
 )
 CHECKS["C10"] = dict(
     level="fault_enumeration",
